@@ -128,9 +128,9 @@ def specDecorate : Handler := fun j => do
         | some r => Json.arr (r.map sspanJson).toArray
         | none => Json.null)]
   let linesOk := (codeLines plain).all okCode && (wholeLabels plain).all cleanLabel && looseOk plain
-  pure (Json.mkObj [("src", str (decorateS d)), ("hygienic", Json.bool (linesOk && hygienic nd)),
+  pure (Json.mkObj [("src", str (decorateS d)), ("hygienic", Json.bool (linesOk && !(codeLines nd).isEmpty)),
     ("lines_ok", Json.bool linesOk),
-    ("base", str (joinNL (base nd))), ("nlines", Json.num (codeLines nd).length), ("labels", Json.arr per.toArray)])
+    ("base", str (stripPy (joinNL (base nd)))), ("nlines", Json.num (codeLines nd).length), ("labels", Json.arr per.toArray)])
 
 /-- `c12.spec_malformed`: for each source, whether the hint tokens of its centrifugated text are
 malformed (`malformedB`) and tie-free (`tieFreeB`). -/
